@@ -650,6 +650,9 @@ func (c *HostClient) doNonNilReqResp(req *protocol.Request, resp *protocol.Respo
 
 	if customSkipBody || req.Header.IsHead() || req.Header.IsConnect() {
 		resp.SkipBody = true
+		// The flag belongs to this exchange only. Do not leave it on a Response
+		// the caller may use again: it would be taken for an explicit setting.
+		defer func() { resp.SkipBody = customSkipBody }()
 	}
 	if c.DisableHeaderNamesNormalizing {
 		resp.Header.DisableNormalizing()
@@ -719,6 +722,11 @@ func (c *HostClient) doNonNilReqResp(req *protocol.Request, resp *protocol.Respo
 		return retry, err
 	}
 	shouldCloseConn = resetConnection || req.ConnectionClose() || resp.ConnectionClose()
+	if customSkipBody && !req.Header.IsHead() && !req.Header.IsConnect() &&
+		!resp.Header.MustSkipContentLength() && resp.Header.ContentLength() != 0 {
+		// the caller asked not to read a body that is on the wire: the connection is not clean
+		shouldCloseConn = true
+	}
 
 	if resp.Header.StatusCode() == consts.StatusSwitchingProtocols &&
 		bytes.EqualFold(resp.Header.Peek(consts.HeaderConnection), bytestr.StrUpgrade) {
